@@ -1,9 +1,41 @@
-(* C09_lex.v — text level (tokenizer) theorems of C09; see coq/theories/Lex*.v *)
+(* C09_lex.v — C09 (compilation is total), TEXT LEVEL: the tokenizer (bitproto.lexer.Lexer driven by
+   ply.lex.Lexer.token, modelled in coq/theories/Lex.v from the generated coq/gen/GenLexer.v)
+   terminates on EVERY input string — any sequence of code points, for every word-character
+   table uw — with a complete token list or exactly one exception. *)
 From Coq Require Import String NArith ZArith List Bool.
-From BP Require Import TotalBase LexBase Lex LexSpec.
+From BP Require Import TotalBase LexBase Lex LexSpec LexCase LexProofs.
 From BPGen Require Import GenLexer.
 Import ListNotations.
 
-Theorem C09_lex_rules_consume : forallb (fun r => consumes (r_rx r) && rx_wf (r_rx r)) lex_rules = true.
+(* every rule of the master regex consumes: no rule can match the empty string, and every
+   repeated sub-expression consumes (so sre's empty-iteration rules never matter) *)
+Theorem C09_lex_rules_consume :
+  forallb (fun r => consumes (r_rx r) && rx_wf (r_rx r)) lex_rules = true.
 Proof. vm_compute. reflexivity. Qed.
 Print Assumptions C09_lex_rules_consume.
+
+Theorem C09_lex_rule_progress : forall uw fuel r s s',
+  In r lex_rules -> In s' (mres uw fuel (r_rx r) s) -> (length (snd s') < length (snd s))%nat.
+Proof. exact rule_progress. Qed.
+Print Assumptions C09_lex_rule_progress.
+
+(* the token loop never runs out of fuel |s| + 1: it ends with None (LDone), the LexerError of
+   t_error, a ParserError raised by a rule body, or an exception of a rule body *)
+Theorem C09_lex_terminates : forall uw s, snd (fst (lex_run uw s)) <> LFuel.
+Proof. exact lex_terminates. Qed.
+Print Assumptions C09_lex_terminates.
+
+(* the lexeme handed to a rule body is in the language of the rule's regex *)
+Theorem C09_lex_lexeme_in_language : forall uw fuel s r s',
+  first_rule uw fuel lex_rules s = Some (r, s') ->
+  In r lex_rules /\ exists w, snd s = w ++ snd s' /\ fst s' = lastc (fst s) w /\ dm uw (r_rx r) (fst s) w (snd s').
+Proof. exact chosen_lexeme_in_language. Qed.
+Print Assumptions C09_lex_lexeme_in_language.
+
+(* non-vacuity: a text with every kind of token; an unterminated string; a bad width *)
+Example C09_lex_nonvacuous :
+  snd (lex uni_word [117;105;110;116;56;32;120;61;34;97;92;34;98;34;47;47;99;10;48;120;49;70]%N) = LDone
+  /\ length (fst (lex uni_word [117;105;110;116;56;32;120;61;34;97;92;34;98;34;47;47;99;10;48;120;49;70]%N)) = 7%nat
+  /\ lex uni_word [34;97;98;99]%N = ([], LError "LexerError" 34%N 1%Z)
+  /\ snd (lex uni_word [105;110;116;48]%N) = LActErr "InvalidIntCap" 1%Z.
+Proof. vm_compute. repeat split. Qed.
